@@ -167,6 +167,32 @@ pub fn replay_file(path: &str) -> i32 {
                 }
             }
         }
+        "unwrap_symbol" => {
+            // {"program", "call": unwrap_left|unwrap_right, "argument_type"}: the debug symbol of that call must carry the
+            // argument's type (the value reconstruction half of the check is not repeated here)
+            let program = j.get("program").and_then(|x| x.as_str()).unwrap_or("");
+            let call = j.get("call").and_then(|x| x.as_str()).unwrap_or("");
+            let strip = |s: &str| s.chars().filter(|c| !c.is_whitespace()).collect::<String>();
+            let want = strip(j.get("argument_type").and_then(|x| x.as_str()).unwrap_or(""));
+            match drive::build(program, simfony::Arguments::default(), true) {
+                Err(o) => format!("MISMATCH not compiled: {o:?}"),
+                Ok(built) => {
+                    let symbols = built.compiled.debug_symbols();
+                    let ms = drive::guard(|| crate::props::c14::markers(&built.compiled)).unwrap_or_default();
+                    let mut seen = vec![];
+                    for m in &ms {
+                        if let Some(tc) = symbols.get(m) {
+                            if crate::props::c14::kind_of(tc.name()) == call {
+                                if let simfony::debug::TrackedCallName::UnwrapLeft(t) | simfony::debug::TrackedCallName::UnwrapRight(t) = tc.name() {
+                                    seen.push(strip(&t.to_string()));
+                                }
+                            }
+                        }
+                    }
+                    if !seen.is_empty() && seen.iter().all(|t| *t == want) { "symbol type ok".to_string() } else { format!("MISMATCH symbol types {seen:?}, argument type {want}") }
+                }
+            }
+        }
         "error_message" => {
             let text = j.get("program").and_then(|x| x.as_str()).unwrap_or("");
             match crate::props::c20::verdict(text) {
